@@ -22,6 +22,7 @@ type Env struct {
 	inPre   bool
 	depth   int
 	lastFacts []string
+	atLoop    func(k int) *Env
 	oldIsPre  bool // loop step/exit clauses: old() is the state at the loop head
 	entryMode bool
 	facts   *[]string // well-formedness facts about heap values read while evaluating (true of every Go heap)
@@ -282,6 +283,12 @@ func (env *Env) eval(e *Expr) Term {
 			if t, ok := env.local(e.Name, env.inPre); ok {
 				return t
 			}
+			if env.inPre {
+				// a name defined inside the iteration (op, opArg ...) keeps its value inside old()
+				if t, ok := env.local(e.Name, false); ok {
+					return t
+				}
+			}
 		}
 		if e.Name == "nil" {
 			return nilTerm
@@ -354,6 +361,17 @@ func (env *Env) eval(e *Expr) Term {
 		// old of parameters is the parameter itself (SSA parameters are immutable)
 		return n.eval(e.Args[0])
 	case "call":
+		if e.Name == "atloop" && len(e.Args) == 2 && e.Args[0].Op == "int" {
+			if env.atLoop == nil {
+				efail("atloop() outside a loop clause")
+			}
+			n := env.atLoop(int(e.Args[0].Int.Int64()))
+			if n == nil {
+				efail("atloop(%s): not an enclosing loop", e.Args[0].Int)
+			}
+			n.vars = env.vars
+			return n.eval(e.Args[1])
+		}
 		if e.Name == "entry" && len(e.Args) == 1 {
 			// value at function entry (loop clauses)
 			n := *env
@@ -813,6 +831,26 @@ func (env *Env) call(e *Expr) Term {
 			r = app("s.arr", x.S)
 		}
 		return mk(app(">", r, vc.get(env.old, "$alloc")), SBool)
+	case "ncalls":
+		vc.callLogDecl()
+		return mk(vc.get(env.heap(), "Gcalls_n"), SInt).withType(types.Typ[types.Int])
+	case "callfn":
+		vc.callLogDecl()
+		return mk(app("select", vc.get(env.heap(), "Gcalls_fn"), argT(0).S), SInt)
+	case "callargs":
+		vc.callLogDecl()
+		return mk(app("select", vc.get(env.heap(), "Gcalls_args"), argT(0).S), SSlice).withType(types.NewSlice(env.resolveType("object.Object")))
+	case "toiface":
+		// the interface value holding pointer x (as MakeInterface builds it)
+		x := argT(0)
+		if x.T == nil || !isPointerLike(x.T) {
+			efail("toiface needs a typed pointer")
+		}
+		return mk(app("mk-iface", fmt.Sprint(u.tagOf(x.T)), x.S), SIface)
+	case "funcval":
+		// the function value stored in an interface{} (e.g. an entry of Environment.functions)
+		x := argT(0)
+		return mk(app("i.val", x.S), SInt)
 	case "wrap64":
 		x := argT(0)
 		return mk(wrapInt(x.S, types.Typ[types.Int64]), SInt).withType(types.Typ[types.Int64])
